@@ -159,6 +159,34 @@ def r20_5(rep, M, rid):
             rep.violation(rid, "to_scaled product", f"returns {linalg.show(f)}; the inverse of to_cartesian is "
                           f"{linalg.show(want)}", M.where(fq, r))
     rep.floor(rid, 2)
+    # who may wrap: a conversion that folds coordinates into the cell does so only along the system's own periodic directions
+    nsites = 0
+    for conv in (GEO + ".to_cartesian", GEO + ".to_scaled"):
+        cps = M.params(conv)
+        for q in M.functions():
+            for c in M.calls_to(q, conv):
+                b = dict(zip(cps, c.args))
+                b.update({k.arg: k.value for k in c.keywords if k.arg})
+                w = b.get("wrap")
+                if w is None or (isinstance(w, ast.Constant) and not w.value):
+                    continue
+                nsites += 1
+                pb = b.get("pbc")
+                construct = f"{q.split('.')[-1]}: `{norm(c)[:70]}`"
+                if pb is None:
+                    rep.violation(rid, construct, "wrap requested without the periodicity flags: the default pbc=False wraps nothing", M.where(q, c))
+                    continue
+                flq = Flow(M.func(q))
+                sl = flq.slice(pb, flq.node_of(c))
+                from_sys = any(isinstance(x, ast.Call) and isinstance(x.func, ast.Attribute) and x.func.attr == "get_pbc" for e in sl["exprs"] for x in ast.walk(e)) \
+                    or any("pbc" in p for p in sl["params"])
+                if from_sys and not isinstance(pb, ast.Constant):
+                    rep.ok(rid, construct + " wraps along the system's periodic directions")
+                else:
+                    rep.violation(rid, construct, f"coordinates are folded into the cell with pbc=`{norm(pb)}` instead of the periodicity of the system: "
+                                  "along a non-periodic direction a point outside the cell (unwrapped molecule, slab) jumps by a lattice vector, so results "
+                                  "no longer follow a rigid translation", M.where(q, c))
+    rep.count("wrapping_conversion_sites", nsites)
 
 
 # ----------------------------------------------------------------------------- R20.3 swap_basis
@@ -369,8 +397,8 @@ def r20_7(rep, M, rid):
 
 # ----------------------------------------------------------------------------- units: fractional vs length
 def unit_of(M, fq, fl, e, at, depth=0):
-    """'frac' (scaled coordinate), 'len' (cartesian length / vector), 'num' (pure number), None (unknown)"""
-    if depth > 8:
+    """'frac' (scaled coordinate), 'len' (cartesian length / vector), 'num' (pure number), 'proj' (orthogonal projection), None (unknown)"""
+    if depth > 20:
         return None
     if isinstance(e, ast.Constant) and isinstance(e.value, (int, float)):
         return "num"
@@ -399,6 +427,12 @@ def unit_of(M, fq, fl, e, at, depth=0):
             return unit_of(M, fq, fl, e.args[0], at, depth + 1)
         if name in ("numpy.zeros", "numpy.ones"):
             return None
+        if name in ("numpy.dot", "numpy.matmul", "numpy.inner") and len(e.args) == 2:
+            # cartesian vectors dotted with a dimensionless direction: an *orthogonal projection* (not an oblique component)
+            us = {unit_of(M, fq, fl, e.args[0], at, depth + 1), unit_of(M, fq, fl, e.args[1], at, depth + 1)}
+            if us == {"len", "num"}:
+                return "proj"
+            return None
         if name in ("numpy.array", "numpy.asarray", "numpy.abs", "numpy.max", "numpy.min", "numpy.amax", "numpy.amin", "numpy.ptp") and e.args:
             return unit_of(M, fq, fl, e.args[0], at, depth + 1)
         callees = M.callees_of_call(fq, e)
@@ -421,6 +455,8 @@ def unit_of(M, fq, fl, e, at, depth=0):
             if "num" in (a, b):
                 return a if b == "num" else b
             return None
+        if isinstance(e.op, ast.MatMult):
+            return "proj" if {a, b} == {"len", "num"} else None
         if isinstance(e.op, ast.Mult):
             if {a, b} == {"frac", "len"}:
                 return "len"
@@ -457,6 +493,11 @@ def r20_units(rep, M, rid):
             rep.violation(rid, f"get_minimized_cell: `{norm(t.test)}`", f"`{norm(other)}` is a *fractional* extent but `{ms}` is a length in angstrom: in the 2D "
                           "pipeline the cell is much longer than the layer, the fractional extent is always < 1, so the cell is always inflated to "
                           "min_size and thicker layers end up outside it", M.where(fq, t))
+        elif u == "proj":
+            rep.violation(rid, f"get_minimized_cell: `{norm(other)}`", f"`{norm(other)}` is an orthogonal projection of cartesian positions onto the axis "
+                          "direction; the extent that the new basis vector must cover is the spread of the *fractional* coordinate along that "
+                          "(generally oblique) axis times its length - the two differ whenever the axis is not perpendicular to the other two "
+                          "basis vectors (monoclinic, triclinic, hexagonal a/b), so atoms end up outside the minimized cell", M.where(fq, t))
         else:
             raise AnalysisError(f"get_minimized_cell: unit of `{norm(other)}` could not be inferred")
 
